@@ -117,7 +117,7 @@ def generate(rng, tier):
     cfg['n_modules'] = (1, 2)
     cfg['n_funcs'] = (1, 3)
     cfg['forms'] = ['assign', 'assign', 'assign', 'expr', 'print', 'emit', 'emit', 'for', 'with', 'semi', 'callmod', 'comment']
-    flavour = rng.choice(['plain', 'plain', 'plain', 'async', 'global_exec'])
+    flavour = rng.choice(['plain', 'plain', 'plain', 'plain', 'async', 'global_exec', 'finaliser'])
     if flavour == 'async':
         # doctests that await, some leaving a background task pending when a part ends
         cfg['async_forms'] = ['await', 'awaitprint', 'bgtask', 'bgtask', 'gather']
@@ -137,6 +137,17 @@ def generate(rng, tier):
             pfx = 'zz%d' % n
         n += 1
         add_special_steps(rng, dt, pfx, mod['name'], [m['name'] for m in world['modules']])
+    if flavour == 'finaliser':
+        # doctests that leave an object with a printing finaliser behind, and doctests that ask for
+        # a garbage collection: what one doctest left is gone when its run is over, not later
+        for dtid, dt, mod in W.iter_doctests(world):
+            b = max(st['i'] for st in dt['steps']) + 70
+            if rng.random() < 0.6:
+                dt['steps'].insert(rng.randint(0, len(dt['steps'])), {'i': b, 'form': 'mkdel', 'pts': [], 'ps2': False, 'sep': 'blank'})
+            if rng.random() < 0.6:
+                dt['steps'].insert(rng.randint(0, len(dt['steps'])), {'i': b + 1, 'form': 'gccollect', 'pts': [], 'ps2': False, 'sep': 'blank'})
+            dt['steps'][0]['sep'] = 'none'
+            gen.fix_chunk_starts(dt['steps'])
     world['extra_files'] = {'simsibling.py': 'VALUE = 7\n'}
     if rng.random() < 0.08:
         # one of the files under test is named like a module of the standard library (the
@@ -176,6 +187,13 @@ def generate(rng, tier):
     if flavour == 'global_exec':
         for op in ops:
             op['config'] = {'global_exec': 'SIMREG = []'}
+    if flavour == 'finaliser':
+        # (a run that ends by a propagating exception keeps its namespace: not what is looked at here)
+        for op in ops:
+            if op['op'] == 'run_obj':
+                op['on_error'] = 'return'
+                op['mode'] = 'native'
+        ops.insert(rng.randint(0, len(ops)), {'op': 'runner', 'target': rng.choice(mods), 'command': 'all', 'verbose': rng.choice([0, 1, 3])})
     if rng.random() < 0.2:
         # the environment changes half way (what REQUIRES sees is decided when a statement is reached)
         ops.insert(rng.randint(1, len(ops)), {'op': 'setenv', 'environ': rng.choice([{}, {'SIM_A': '2'}]),
@@ -208,7 +226,7 @@ def generate(rng, tier):
             continue
         used.add((dtid, k))
         p = rng.choice(pts)
-        kind = rng.choice(FAULTS)
+        kind = rng.choice(FAULTS if flavour != 'finaliser' else ['raise', 'wrong', 'mute'])
         f = {'dt': dtid, 'k': k, 'pid': p['pid'], 'kind': kind}
         if kind == 'raise':
             f['exc'] = rng.choice(['ValueError', 'KeyError', 'SimError'])
@@ -243,6 +261,20 @@ def generate(rng, tier):
                     if kind == 'warn_filters':
                         f['how'] = 'simplefilter'
                     plan.append(f)
+    if rng.random() < 0.2:
+        # the same code warns, at the same place with the same text, in two executions: each
+        # execution records its warning (what Python remembers about locations that already
+        # warned is not allowed to carry over)
+        twice = [(d, k, o) for d, k, o in execs if k == 1 and (d, 0) not in used and (d, 1) not in used]
+        if twice:
+            dtid, k, opidx = rng.choice(twice)
+            pts = common.points_of(world, dtid)
+            if pts:
+                pid = rng.choice(pts)['pid']
+                used.add((dtid, 0))
+                used.add((dtid, 1))
+                plan.append({'dt': dtid, 'k': 0, 'pid': pid, 'kind': 'warn'})
+                plan.append({'dt': dtid, 'k': 1, 'pid': pid, 'kind': 'warn'})
     # the E14 shape: the first output of a later execution of the same object is muted
     if rng.random() < 0.35:
         cand = [(d, k, o) for d, k, o in execs if k >= 1 and (d, k) not in used]
@@ -309,6 +341,7 @@ def observation(e):
         'modglobals': [list(x[2:]) for x in e.get('modglobals', [])],
         'bindings': e.get('bindings'),
         'render': (e.get('render') or {}).get('False'),
+        'warned': e.get('n_warned'),
     }
 
 
@@ -417,7 +450,7 @@ def isolated(scn, e, server):
 
 
 RULE_OF = {'verdict': 'C11.R1', 'exc': 'C11.R1', 'stdout': 'C11.R2', 'hits': 'C11.R1', 'names': 'C11.R3',
-           'bindings': 'C11.R3', 'modglobals': 'C11.R4', 'render': 'C11.R1'}
+           'bindings': 'C11.R3', 'modglobals': 'C11.R4', 'render': 'C11.R1', 'warned': 'C11.R1'}
 
 
 def check(rec):
@@ -433,9 +466,9 @@ def check(rec):
         e['iso_compared'] = iso is not None
         if iso is None:
             continue
-        for key in ('verdict', 'exc', 'stdout', 'hits', 'names', 'modglobals', 'bindings', 'render'):
-            a, b = obs[key], iso[key]
-            if key == 'bindings' and (a is None or b is None):
+        for key in ('verdict', 'exc', 'stdout', 'hits', 'names', 'modglobals', 'bindings', 'render', 'warned'):
+            a, b = obs[key], iso.get(key)
+            if key in ('bindings', 'warned') and (a is None or b is None):
                 continue
             if a != b:
                 out.append(common.viol(RULE_OF[key], '%s after history [%s]: %s is %s, alone in a fresh process it is %s' % (
